@@ -62,8 +62,7 @@ Definition remove_dot_segments (p : text) : text := rds_loop (S (length p)) p []
 Definition rds_keep_kind (p : text) : text :=
   match p with
   | [] => []
-  | 47 :: _ => remove_dot_segments p
-  | _ => tl (remove_dot_segments (47 :: p))
+  | _ => if head_is 47 p then remove_dot_segments p else tl (remove_dot_segments (47 :: p))
   end.
 
 (* 5.2.3 *)
@@ -93,8 +92,10 @@ Definition transform (strict : bool) (B R : five) : five :=
       match f_path R with
       | [] => mkFive (f_scheme B) (f_auth B) (f_path B)
                      (match f_query R with Some q => Some q | None => f_query B end) (f_frag R)
-      | 47 :: _ => mkFive (f_scheme B) (f_auth B) (rds_keep_kind (f_path R)) (f_query R) (f_frag R)
-      | _ => mkFive (f_scheme B) (f_auth B)
+      | _ =>
+        if head_is 47 (f_path R)
+        then mkFive (f_scheme B) (f_auth B) (rds_keep_kind (f_path R)) (f_query R) (f_frag R)
+        else mkFive (f_scheme B) (f_auth B)
                     (rds_keep_kind (merge (is_some_t (f_auth B)) (f_path B) (f_path R))) (f_query R) (f_frag R)
       end
     end
@@ -111,9 +112,10 @@ Definition recompose (t : five) : text :=
 (* the only licence the property gives: a host-less result whose path begins with "//" gets "/."
    in front, so that the text is not read back as an authority *)
 Definition guard_slashes (t : five) : five :=
-  match f_auth t, f_path t with
-  | None, 47 :: 47 :: _ => mkFive (f_scheme t) None (47 :: 46 :: f_path t) (f_query t) (f_frag t)
-  | _, _ => t
+  match f_auth t with
+  | None => if starts_with [47; 47] (f_path t)
+            then mkFive (f_scheme t) None (47 :: 46 :: f_path t) (f_query t) (f_frag t) else t
+  | Some _ => t
   end.
 
 (* ---- RFC 3986 Appendix B: a reference text into its five components -------------------- *)
@@ -127,22 +129,21 @@ Fixpoint span_until (stops : list N) (s : text) : text * text :=
 Definition five_of_text (s : text) : five :=
   let (pfx, rest0) := span_until [58; 47; 63; 35] s in
   let '(sch, rest1) :=
-    match pfx, rest0 with
-    | _ :: _, 58 :: r => (Some pfx, r)
+    match pfx, strip_char 58 rest0 with
+    | _ :: _, Some r => (Some pfx, r)
     | _, _ => (None, s)
     end in
   let '(auth, rest2) :=
-    match rest1 with
-    | 47 :: 47 :: r => let (a, r') := span_until [47; 63; 35] r in (Some a, r')
-    | _ => (None, rest1)
-    end in
+    if starts_with [47; 47] rest1
+    then let (a, r') := span_until [47; 63; 35] (skipn 2 rest1) in (Some a, r')
+    else (None, rest1) in
   let (path, rest3) := span_until [63; 35] rest2 in
   let '(qry, rest4) :=
-    match rest3 with
-    | 63 :: r => let (q, r') := span_until [35] r in (Some q, r')
-    | _ => (None, rest3)
+    match strip_char 63 rest3 with
+    | Some r => let (q, r') := span_until [35] r in (Some q, r')
+    | None => (None, rest3)
     end in
-  mkFive sch auth path qry (match rest4 with 35 :: r => Some r | _ => None end).
+  mkFive sch auth path qry (strip_char 35 rest4).
 
 (* the corner in which the two clauses of the property cannot both be met: the result has no
    authority, the path to clean is rootless, and cleaning it leaves a leading empty segment *)
@@ -151,18 +152,19 @@ Definition unspecified_corner (strict : bool) (B R : five) : bool :=
   match f_auth t with
   | Some _ => false
   | None =>
+    let r_keeps_scheme :=
+      is_some_t (f_scheme R)
+      && negb (negb strict && match f_scheme R, f_scheme B with Some a, Some b => text_eqb a b | _, _ => false end) in
     let raw :=
-      match f_scheme t, f_auth R, f_path R with
-      | _, Some _, _ => f_path R
-      | _, None, [] => []
-      | _, None, 47 :: _ => f_path R
-      | _, None, _ => if is_some_t (f_scheme R) && negb (negb strict && match f_scheme R, f_scheme B with Some a, Some b => text_eqb a b | _, _ => false end)
-                      then f_path R else merge (is_some_t (f_auth B)) (f_path B) (f_path R)
-      end in
+      if r_keeps_scheme || is_some_t (f_auth R) then f_path R
+      else match f_path R with
+           | [] => []
+           | _ => if head_is 47 (f_path R) then f_path R
+                  else merge (is_some_t (f_auth B)) (f_path B) (f_path R)
+           end in
     match raw with
     | [] => false
-    | 47 :: _ => false
-    | _ => match f_path t with 47 :: _ => true | _ => false end
+    | _ => negb (head_is 47 raw) && head_is 47 (f_path t)
     end
   end.
 
